@@ -175,9 +175,14 @@ def run_case(case, ctx):
         n_init = 3  # "explicit initial centres: performing only one init" branch
     elif isinstance(init, str) and rng2.rand() < 0.12:
         # a callable init (mlinsights' signature: init(norm, X, k, random_state=...)): k distinct data rows
-        def init_l1(norm, Xa, kk, random_state=None):
-            u = numpy.unique(Xa, axis=0)
-            return u[random_state.permutation(len(u))[:kk]]
+        if rng2.rand() < 0.5 and len(numpy.unique(X[:k], axis=0)) == k:
+            # ... that returns a VIEW of the matrix it is given (its first k rows)
+            def init_l1(norm, Xa, kk, random_state=None):
+                return Xa[:kk]
+        else:
+            def init_l1(norm, Xa, kk, random_state=None):
+                u = numpy.unique(Xa, axis=0)
+                return u[random_state.permutation(len(u))[:kk]]
     max_iter = [1, 2, 300][rng.randint(3)] if rng.rand() < 0.4 else 300
     tol = 0.0 if rng.rand() < 0.2 else 1e-4
     rs = int(rng.randint(0, 1000))
@@ -349,17 +354,26 @@ def run_case(case, ctx):
     # ---- L2: exactly KMeans
     if not f32 or True:
         kw = dict(n_clusters=k, init=init, n_init=n_init, max_iter=max_iter, tol=tol, random_state=rs)
+        # the seed as an int, as a RandomState object (two objects in the same state) or None after numpy.random.seed
+        rsk = ["int", "int", "RandomState-object", "None-after-global-seed"][(case["sub"] // 4) % 4]
+        cfg["random_state_kind"] = rsk
+        kw_int = dict(kw)      # the history clause below builds further models: it keeps the plain integer seed
         try:
-            a = layouts.build(KMeansL1L2, dict(kw, norm="L2"), via, as_numpy_scalars=(case["sub"] // 7) % 3 == 0, decoys=dict(n_clusters=k + 1, norm="L1", n_init=4))
-            b = KMeans(**kw)
+            if rsk == "RandomState-object":
+                kw = dict(kw, random_state=numpy.random.RandomState(rs))
+            elif rsk == "None-after-global-seed":
+                kw = dict(kw, random_state=None)
+            a = layouts.build(KMeansL1L2, dict(kw, norm="L2"), via and rsk == "int", as_numpy_scalars=(case["sub"] // 7) % 3 == 0, decoys=dict(n_clusters=k + 1, norm="L1", n_init=4))
+            b = KMeans(**(kw if rsk != "RandomState-object" else dict(kw, random_state=numpy.random.RandomState(rs))))
             with warnings.catch_warnings():
                 warnings.simplefilter("ignore")
-                if w is None:
-                    a.fit(X)
-                    b.fit(X)
-                else:
-                    a.fit(X, sample_weight=w)
-                    b.fit(X, sample_weight=w)
+                for mdl in (a, b):
+                    if rsk == "None-after-global-seed":
+                        numpy.random.seed(rs)
+                    if w is None:
+                        mdl.fit(X)
+                    else:
+                        mdl.fit(X, sample_weight=w)
         except Exception as e:
             ctx.violation("C06/L2/raised/%s" % type(e).__name__, "%s: %s" % (type(e).__name__, str(e)[:200]), cfg=cfg)
             return
@@ -385,7 +399,7 @@ def run_case(case, ctx):
             for first, other in (("L2", "L1"), ("L1", "L2")):
                 fault = ["nan", "weights", "too-few-rows"][(case["sub"] // 7 + (first == "L1")) % 3]
                 try:
-                    h = KMeansL1L2(norm=first, **kw)
+                    h = KMeansL1L2(norm=first, **kw_int)
                     with warnings.catch_warnings():
                         warnings.simplefilter("ignore")
                         h.fit(X)
@@ -424,7 +438,7 @@ def run_case(case, ctx):
                 else:
                     with warnings.catch_warnings():
                         warnings.simplefilter("ignore")
-                        hb = KMeans(**kw).fit(X)
+                        hb = KMeans(**kw_int).fit(X)
                     wrong = not numpy.array_equal(ph, hb.predict(Xq)) or not numpy.array_equal(Th, hb.transform(Xq))
                 if wrong:
                     ctx.violation("C06/%s/history/predict-or-transform-follows-the-refused-fit" % first,
